@@ -74,3 +74,68 @@ Example C14_applies :
   snd (iter_run (query_iter None true (RunRows r)) [OpNext; OpNext; OpClose; OpClose]) =
   [OutBool true; OutBool false; OutErr (Some (ErrDriver 9)) StNothing; OutErr (Some (ErrDriver 9)) StNothing].
 Proof. vm_compute. reflexivity. Qed.
+
+(* ------------------------------------------------------------------------
+   Rows in driver order for ARBITRARY call sequences (Model/Pool.v: history,
+   nexts_true, trace, delivered, made_current; proofs in Proofs/IterOrder.v).
+   history i ops  = the calls with what each returned;
+   nexts_true h   = the number of Next calls that returned true;
+   trace h        = an entry (k, id) for every Get with valid destinations that
+                    succeeded: id is the row the destinations received, k the
+                    number of Next calls that had returned true before;
+   made_current   = (model state) the row each successful Next made current. *)
+From SQLair.Model Require Import Pool.
+From SQLair.Proofs Require Import IterOrder.
+
+(* For every sequence of Next, Get (valid / invalid destinations / Outcome),
+   Close and cancellations of the context, in any order and number, on the
+   iterator of a query whose result is read without incident:
+   (i)  the rows made current by the successive Next = true results are a
+        prefix of the driver's rows: in driver order, none skipped, none
+        repeated, never more than the driver has;
+   (ii) every successful Get with valid destinations delivers the row made
+        current by the most recent Next = true: with k successful Next calls
+        before it, it is the k-th row of the driver and k >= 1.  So a row is
+        delivered twice only by calling Get twice without Next, and no row is
+        delivered before it was fetched. *)
+Theorem C14_rows_in_order :
+  forall hasout r ops,
+    reading r ->
+    let ids := map row_id (r_pending r) in
+    let i0 := query_iter None hasout (RunRows r) in
+    let h := history i0 ops in
+    nexts_true h <= length ids /\
+    made_current i0 ops = firstn (nexts_true h) ids /\
+    Forall (fun '(k, id) => exists j, k = S j /\ nth_error ids j = Some id) (trace h).
+Proof. exact rows_in_order. Qed.
+Print Assumptions C14_rows_in_order.
+
+(* hence the positions of the delivered rows never go back (any history) *)
+Theorem C14_delivery_never_goes_back :
+  forall h, nondecreasing (map fst (trace h)).
+Proof. intros h. exact (trace_positions_nondecreasing h 0). Qed.
+Print Assumptions C14_delivery_never_goes_back.
+
+(* and the loop "for iter.Next() { iter.Get(...) }" delivers every row of the
+   driver, in order, each exactly once *)
+Theorem C14_read_all_complete :
+  forall hasout r, reading r ->
+    delivered (history (query_iter None hasout (RunRows r)) (read_all (length (r_pending r)))) =
+    map row_id (r_pending r).
+Proof. exact read_all_complete. Qed.
+Print Assumptions C14_read_all_complete.
+
+(* non-vacuity: Get before Next, Get twice, Next without Get, a Get the
+   destinations of which are rejected, the end, Get and Next after Close *)
+Example C14_order_applies :
+  let r := {| r_pending := [{| row_id := 11; row_ok := true |}; {| row_id := 12; row_ok := true |};
+                            {| row_id := 13; row_ok := true |}];
+              r_fail := None; r_close_err := None; r_more := false; r_closed := false; r_lasterr := None;
+              r_hiteof := false; r_ctxdone := false; r_current := None; r_driver_closes := 0 |} in
+  let ops := [OpGet GValid; OpNext; OpGet GValid; OpGet GValid; OpGet GOutcome; OpNext; OpNext;
+              OpGet (GInvalid 1); OpGet GValid; OpNext; OpGet GValid; OpClose; OpGet GValid; OpNext] in
+  let i0 := query_iter None true (RunRows r) in
+  reading r /\
+  trace (history i0 ops) = [(1, 11); (1, 11); (3, 13)] /\
+  nexts_true (history i0 ops) = 3 /\ made_current i0 ops = [11; 12; 13].
+Proof. split; [repeat split|vm_compute; auto]. Qed.
